@@ -318,7 +318,7 @@ def body(ctx):
 
 
 def run(ctx):
-    hyp_run(ctx, 'c10.machine', case_strategy(True), body(ctx), ctx.pick(150, 3000))
+    hyp_run(ctx, 'c10.machine', case_strategy(True), body(ctx), ctx.pick(150, 15000))
 
 
 def replay(ctx, check, case):
